@@ -84,6 +84,21 @@ impl<'a> InputEditor<'a> {
     }
 }
 
+/// Verification hook: the pending edit operations as (start, end, replacement code points)
+#[cfg(sudachi_verif)]
+pub(super) fn verif_ops(ops: &[ReplaceOp]) -> Vec<serde_json::Value> {
+    ops.iter()
+        .map(|op| {
+            let with: Vec<u32> = match &op.with {
+                ReplaceTgt::Ref(s) => s.chars().map(|c| c as u32).collect(),
+                ReplaceTgt::Char(c) => vec![*c as u32],
+                ReplaceTgt::Str(s) => s.chars().map(|c| c as u32).collect(),
+            };
+            serde_json::json!({"s": op.what.start, "e": op.what.end, "w": with})
+        })
+        .collect()
+}
+
 // Edits are assumed to be sorted (from start to end) and non-overlapping.
 // This is not checked right now (may be we should check this in debug mode)
 // Current plugin implementations satisfy this criteria.
